@@ -26,6 +26,9 @@ REPLAYS = os.path.join(ROOT, "replays")
 # development only (seedtool's isolated matrix runs): a copy of the harness whose replace
 # directive points at a scratch worktree, and a private output directory. The registered
 # commands never set these, so they always build /verif/harness against /repo.
+if os.environ.get("VERIF_DEV_EVID"):
+    # seedtool's runs against a patched /repo must not overwrite the evidence of the unchanged tree
+    EVID = os.environ["VERIF_DEV_EVID"]
 if os.environ.get("VERIF_DEV_HARNESS"):
     HARNESS = os.environ["VERIF_DEV_HARNESS"]
     BUILD = os.path.join(os.environ["VERIF_DEV_OUT"], "build")
